@@ -46,12 +46,14 @@ def run(scn: Dict[str, Any]) -> ClockRun:
             elif k == "roundtrip":
                 for s in st["hhmm"]:
                     w0 = sim.wall()
+                    n0 = len(sim.clock_log)
                     enc = _call(tools.time_to_hexadecimal_timestamp, s)
                     w1 = sim.wall()
+                    readings = list(sim.clock_log[n0:])
                     dec = None
                     if enc[0] == "ok" and isinstance(enc[1], str):
                         dec = _call(tools.hexadecimale_timestamp_to_localtime, enc[1].encode())
-                    out.obs.append({"kind": "roundtrip", "uid": st.get("uid"), "s": s, "wall": w0, "wall1": w1, "enc": enc, "dec": dec})
+                    out.obs.append({"kind": "roundtrip", "uid": st.get("uid"), "s": s, "wall": w0, "wall1": w1, "walls": readings, "enc": enc, "dec": dec})
                     sim.rec("roundtrip", s, enc, dec)
             elif k == "decode":
                 for e in st["epochs"]:
@@ -62,6 +64,7 @@ def run(scn: Dict[str, Any]) -> ClockRun:
             elif k == "next_run":
                 days = {Days[n] for n in st["days"]}
                 w0 = sim.wall()
+                n0 = len(sim.clock_log)
                 if st.get("via") == "schedule":
                     r = _call(lambda: SwitcherSchedule("0", bool(days), days, st["start"], st.get("end", st["start"])).display)
                 elif not days and st.get("omit_days"):
@@ -69,7 +72,7 @@ def run(scn: Dict[str, Any]) -> ClockRun:
                 else:
                     r = _call(tools.pretty_next_run, st["start"], days)
                 out.obs.append({"kind": "next_run", "uid": st.get("uid"), "start": st["start"], "days": sorted(st["days"]),
-                                "wall": w0, "wall1": sim.wall(), "res": r})
+                                "wall": w0, "wall1": sim.wall(), "walls": list(sim.clock_log[n0:]), "res": r})
                 sim.rec("next_run", st["start"], sorted(st["days"]), r)
             else:
                 raise ValueError("unknown clock step %r" % k)
